@@ -48,6 +48,10 @@ type Scenario struct {
 	CutExp          int           `json:"cut_exp,omitempty"` // and heals after this many timer expiries
 	RestartNode     int           `json:"restart_node,omitempty"`
 	RestartAt       int           `json:"restart_at,omitempty"` // -1/0 = none
+	ClockNs         int64         `json:"clock_ns,omitempty"`   // absolute virtual clock at start (overrides EpochUnix)
+	PrevTS          uint64        `json:"prev_ts,omitempty"`    // timestamp of the ledger tip at start
+	PrevTSSet       bool          `json:"prev_ts_set,omitempty"`
+	ZeroStart       bool          `json:"zero_start,omitempty"` // StartHeight 0 is meant literally
 
 	// derived helpers (not serialised)
 	RejectPayload func(node int, p *Payload) bool     `json:"-"`
@@ -78,7 +82,7 @@ func (sc *Scenario) finish() *Scenario {
 	if sc.EpochUnix == 0 {
 		sc.EpochUnix = 1_700_000_000
 	}
-	if sc.StartHeight == 0 {
+	if sc.StartHeight == 0 && !sc.ZeroStart {
 		sc.StartHeight = 4
 	}
 	if sc.Heights == 0 {
@@ -195,6 +199,8 @@ type World struct {
 	log   []string
 
 	stats *Stats
+
+	lastNPR *prepReq // arguments of the latest NewPrepareRequest callback (C15)
 }
 
 // Stats are distinct-outcome counters accumulated across an exploration.
@@ -220,7 +226,13 @@ func newWorld(sc *Scenario, st *Stats) *World {
 	w.now = time.Unix(sc.EpochUnix, 0).UTC()
 	w.logOn = forceLog
 	curWorld = w
+	if sc.ClockNs != 0 {
+		w.now = time.Unix(0, sc.ClockNs).UTC()
+	}
 	genesisTS := uint64(w.now.UnixNano()) - uint64(sc.TimePerBlock)
+	if sc.PrevTS != 0 || sc.PrevTSSet {
+		genesisTS = sc.PrevTS
+	}
 	tip := H(0xabc0 + uint64(sc.StartHeight))
 	for id := 0; id < len(sc.Kinds); id++ {
 		n := &Node{id: id, kind: sc.Kinds[id], w: w, height: sc.StartHeight, tip: tip, tipTS: genesisTS,
@@ -270,6 +282,7 @@ func (w *World) logf(f string, a ...any) {
 }
 
 func (w *World) hookNewPrepareRequest(n *Node, ts, nonce uint64, txs []H) {
+	w.lastNPR = &prepReq{ts: ts, nonce: nonce, txs: slices.Clone(txs)}
 	w.logf("n%d NewPrepareRequest ts=%d txs=%v", n.id, ts, txs)
 }
 func (w *World) hookTimer(n *Node, op string, h uint32, v byte, d time.Duration) {
